@@ -259,6 +259,15 @@ TypeOf(x, C, P) ==
               \* arguments that are used are typed (an ill-typed argument makes every use of its parameter ill typed)
               IN TypeOf(m.body, Ctx(Gm, ERR, FALSE, ERR), P)
          ELSE ERR
+    \* { macro m(ps) == body2; e }: the new body has the type of the macro it redefines (typed like a use of m whose
+    \* arguments have the declared parameter types); e is typed as usual
+    [] e = "lmac" ->
+         IF x.mi \in 1..Len(P.macs)
+         THEN LET m == P.macs[x.mi]
+                  Gm == [n \in {m.ps[i] : i \in 1..Len(m.ps)} |->
+                           [t |-> m.pts[CHOOSE i \in 1..Len(m.ps) : m.ps[i] = n], asg |-> FALSE]]
+              IN IF Fits(TypeOf(x.mbody, Ctx(Gm, ERR, FALSE, ERR), P), m.rt) THEN TypeOf(x.body, C, P) ELSE ERR
+         ELSE ERR
     \* an exception is thrown with exactly the values its declaration carries (P.exnp: the exceptions with a payload)
     [] e = "throw" -> IF (\E i \in 1..Len(P.exns) : P.exns[i] = x.exn) /\ AllFit(TypesOf(x.args, C, P), ExnPayload(P, x.exn))
                       THEN ANY ELSE ERR
